@@ -61,9 +61,22 @@ Theorem C04_still_needs_to_run : forall body c E dyn desel w t f,
   force c = false /\ forall k, In k (neighbours E t) -> row_matches w t k.
 Proof. exact unchanged_sound. Qed.
 
+(* ... with one exception on the unchanged code (known finding F24): a function that raises only
+   AFTER it has restored its products to the recorded content leaves a world in which its old rows
+   match again, and the next build reports it unchanged although its last run failed *)
+Theorem C04_failed_after_restoring_then_unchanged_refuted :
+  let t1 := mkTask 1 1 [101%N] [111%N] [] None false [] false 0%Z [] [] in
+  let cfg := mkConfig false false None None None in
+  map (fun o => match o with (x, r, l, _, _, _) => (x, r, l) end)
+      (run_hist [] [] [HSet 101 5; HBuild cfg [t1] [] []; HSet 111 77; HBuild cfg [t1] [(1%N, RaiseAfter)] [];
+                       HBuild cfg [t1] [] []])
+  = [(0, [(1, 0)], [2; 3]); (1, [(1, 1)], [2; 3]); (0, [(1, 3)], [])]%N.
+Proof. exact failed_after_restoring_then_unchanged_refuted. Qed.
+
 Print Assumptions C04_failed_descendants_not_started.
 Print Assumptions C04_independent_tasks_unaffected.
 Print Assumptions C04_fail_records_nothing.
 Print Assumptions C04_unreported_records_nothing.
 Print Assumptions C04_max_failures_respected.
 Print Assumptions C04_still_needs_to_run.
+Print Assumptions C04_failed_after_restoring_then_unchanged_refuted.
